@@ -57,13 +57,16 @@ SpecModel == InitModel /\ [][NextModel]_vars
 -----------------------------------------------------------------------------
 (* SpecKill / SpecReplay *)
 
-\* the projected real file x = [f, st, vers] agrees with the model state
-FileAgrees(x, m) ==
+\* the projected real file x = [f, st, vers] agrees with the model state (a command that fails by
+\* itself may close a file it has not finished: the model, which takes a closed file for complete,
+\* is then allowed to be told "partial")
+FileAgrees(x, m, aborted) ==
     /\ x.f \in DOMAIN m
-    /\ m[x.f].st = x.st
+    /\ \/ m[x.f].st = x.st
+       \/ (aborted /\ m[x.f].st = "full" /\ x.st = "partial")
     /\ (x.st = "full" => m[x.f].ver \in Range(x.vers))
 
-Disagreeing(c, m) == { j \in 1..Len(c.crash) : ~FileAgrees(c.crash[j], m) }
+Disagreeing(c, m) == { j \in 1..Len(c.crash) : ~FileAgrees(c.crash[j], m, c.aborted) }
 
 \* observed option values: every option must carry an old or a new value (for a fresh directory the
 \* old values are the defaults; the harness then labels defaults as "old" too)
